@@ -4,6 +4,8 @@
    vector; the comparison with the model happens here. *)
 From Coq Require Import List NArith ZArith Bool.
 From RopeVerif.C03 Require Import Flow Collector Dataflow Current Sufficient.
+From RopeVerif.C03 Require OneLine.
+From RopeVerif.C03 Require Import ExtractVar.
 Import ListNotations.
 
 Definition binop_eqb (a b : binop) : bool :=
@@ -17,6 +19,7 @@ Fixpoint expr_eqb (a b : expr) : bool :=
   | EVar x, EVar y => N.eqb x y
   | EConst x, EConst y => Z.eqb x y
   | EBin o a1 a2, EBin p b1 b2 => binop_eqb o p && expr_eqb a1 b1 && expr_eqb a2 b2
+  | EComp v k a1, EComp w j b1 => N.eqb v w && expr_eqb k j && expr_eqb a1 b1
   | _, _ => false
   end.
 
@@ -152,7 +155,7 @@ Definition mismatches (cs : list case) : list (N * N) := mismatches_from 0 cs.
 
 (* classification of a case by the model alone: which hypotheses of the outlining lemma the code's
    args/returns violate (diagnose, 0..31), and the smallest set of repaired disciplines under which they all
-   hold (bits 1 restore, 2 balanced, 4 killnest, 8 readmaybe, 16 loopall, 32 globalargs; 0 = none needed;
+   hold (bits 1 restore, 2 balanced, 4 killnest, 8 readmaybe, 16 loopall, 32 globalargs, 64 loopprew, 128 compiter; 0 = none needed;
    64 = no combination helps). 9999 = refused. *)
 Definition diag_with (sw : switches) (c : case) : N :=
   let lc := c_loc c in
@@ -163,12 +166,12 @@ Definition diag_with (sw : switches) (c : case) : N :=
 Definition sw_of (n : N) : switches :=
   {| sw_restore := N.testbit n 0; sw_balanced := N.testbit n 1; sw_killnest := N.testbit n 2;
      sw_readmaybe := N.testbit n 3; sw_loopall := N.testbit n 4; sw_globalargs := N.testbit n 5;
-     sw_loopprew := N.testbit n 6 |}.
+     sw_loopprew := N.testbit n 6; sw_compiter := N.testbit n 7 |}.
 
 (* non-empty switch sets of at most four switches, smallest sets first *)
-Definition popcount (n : N) : nat := length (filter (fun i => N.testbit n i) [0; 1; 2; 3; 4; 5; 6]%N).
+Definition popcount (n : N) : nat := length (filter (fun i => N.testbit n i) [0; 1; 2; 3; 4; 5; 6; 7]%N).
 Definition combos : list N :=
-  flat_map (fun k => filter (fun n => Nat.eqb (popcount n) k) (map N.of_nat (seq 1 127))) [1; 2; 3; 4]%nat.
+  flat_map (fun k => filter (fun n => Nat.eqb (popcount n) k) (map N.of_nat (seq 1 255))) [1; 2; 3; 4]%nat.
 
 Definition diag4_with (sw : switches) (c : case) : N :=
   let lc := c_loc c in
@@ -179,24 +182,24 @@ Definition diag4_with (sw : switches) (c : case) : N :=
 (* only the "possibly unbound" hypotheses (C2, C4) fail *)
 Definition only_unbound (d : N) : bool := N.eqb (N.land d 5) 0.
 
-(* d0 + 32 * S + 4096 * kind.  kind 0: the switch set S (smallest first, at most four switches) makes every
+(* d0 + 32 * S + 8192 * kind.  kind 0: the switch set S (smallest first, at most four switches) makes every
    data-flow hypothesis hold; kind 1: no such set does, S is the smallest set (possibly empty) after which
    only C2/C4 fail; kind 2: neither exists, or the shape hypothesis fails. 0 = sound as is. 99999 = refused.
-   kind 4 (d0 + 16384): the search was not requested. *)
+   kind 4 (d0 + 32768): the search was not requested. *)
 Definition classify (c : case) : N :=
   if negb (accepted (region (c_loc c))) then 99999%N
   else
     let d0 := diag_with current c in
     if N.eqb d0 0 then 0%N
-    else if N.leb 16 d0 then (d0 + 8192)%N
-    else if negb (c_want c) then (d0 + 16384)%N
+    else if N.leb 16 d0 then (d0 + 16384)%N
+    else if negb (c_want c) then (d0 + 32768)%N
     else
       match find (fun n => N.eqb (diag4_with (sw_or current (sw_of n)) c) 0) combos with
       | Some n => (d0 + 32 * n)%N
       | None =>
           match find (fun n => only_unbound (diag4_with (sw_or current (sw_of n)) c)) (0%N :: combos) with
-          | Some n => (d0 + 32 * n + 4096)%N
-          | None => (d0 + 8192)%N
+          | Some n => (d0 + 32 * n + 8192)%N
+          | None => (d0 + 16384)%N
           end
       end.
 Definition classes (cs : list case) : list N := map classify cs.
@@ -208,8 +211,41 @@ Definition in_static_domain (c : case) : bool :=
      | LHere pre R post => side_C03 (c_params c) pre R post
      | _ => false
      end.
+(* the wider, conjectured class side_C03_if (regions with `if` statements): counted, and checked against
+   outline_ok on every case *)
+Definition in_if_domain (c : case) : bool :=
+  negb (c_glob c)
+  && match c_loc c with
+     | LHere pre R post => side_C03_if (c_params c) pre R post && negb (side_C03 (c_params c) pre R post)
+     | _ => false
+     end.
+Definition count_if_domain (cs : list case) : N := N.of_nat (length (filter in_if_domain cs)).
+Definition if_domain_counterexamples (cs : list case) : list N :=
+  map fst (filter (fun ic => in_if_domain (snd ic) && negb (N.eqb (diag_with current (snd ic)) 0))
+                  (combine (map N.of_nat (seq 0 (length cs))) cs)).
+
 Definition count_static (cs : list case) : N := N.of_nat (length (filter in_static_domain cs)).
 (* sanity channel: a case in the static class whose args/returns do not satisfy the outlining hypotheses
    would contradict the theorem *)
 Definition static_contradictions (cs : list case) : N :=
   N.of_nat (length (filter (fun c => in_static_domain c && negb (N.eqb (diag_with current c) 0)) cs)).
+
+(* extract variable: rope's resulting host against the model (the statement is the region of v_loc, which is a
+   single statement; the selection is v_path inside its expression). 0 agree, 1 differ. *)
+Record vcase := { v_loc : loc; v_path : list bool; v_name : var; v_result : list stmt }.
+Definition run_vcase (c : vcase) : N :=
+  match region (v_loc c) with
+  | [s] => match extract_variable (v_name c) 0%N s (v_path c) with
+           | Some ss => if blk_eqb (plug (v_loc c) ss) (v_result c) then 0%N else 1%N
+           | None => 1%N
+           end
+  | _ => 1%N
+  end.
+Fixpoint vmismatches_from (i : N) (cs : list vcase) : list (N * N) :=
+  match cs with
+  | [] => []
+  | c :: r =>
+      let code := run_vcase c in
+      if N.eqb code 0 then vmismatches_from (N.succ i) r else (i, code) :: vmismatches_from (N.succ i) r
+  end.
+Definition vmismatches (cs : list vcase) : list (N * N) := vmismatches_from 0 cs.
